@@ -4,10 +4,10 @@ from ..common import case_rng
 from ..crashlab import crash_rounds
 
 RULE = (
-    "case = (scenario in {stage+transfer into a local store with state, index save of nested directories (every directory with an entry, or only the top-level ones), store-to-store "
+    "case = (scenario in {stage+transfer into a local store with state, index save of nested directories (every directory with an entry, or only the top-level ones; copying or with hardlink=True), store-to-store transfer (plain, expanded, or keeping a destination index), store-to-store "
     "transfer, upload staging, plain add of hashed files}, generated nested tree with duplicates and empty files, kill point n, "
     "plain or partial); the child process os._exit()s before the n-th filesystem-mutating audit event it issues under the "
-    "scenario root (quick: two trees per scenario, every 10th event plus every event that touches a final object name (and the one after it); "
+    "scenario root (quick: two trees per scenario (one for the two newest scenarios), every 14th event plus every event that touches a final object name (and the one after it); "
     "thorough: every event), optionally after writing half of a copy or creating the file being opened; the parent audits the "
     "store, the state DB and closure, re-runs the operation in a fresh process and compares with an uninterrupted golden run.  "
     "non-trivial = the child really died at the kill point; distinct = (scenario, tree, n, variant)"
@@ -22,15 +22,15 @@ MONITORS = "post-mortem audit (independent re-hash, mode bits, State.get vouchin
 REQUIRED_COUNTERS = ["crash_children", "reruns", "killed_at/rename", "killed_at/chmod", "killed_at/copyfile/partial", "killed_at/open-w/partial"]
 EXHAUSTIVE = {"quick": False, "thorough": True}
 
-SCENARIOS = ["stage-transfer", "index-save", "store-to-store", "upload-staging", "add-files", "index-save-sparse", "store-to-store-expanded"]
+SCENARIOS = ["stage-transfer", "index-save", "store-to-store", "upload-staging", "add-files", "index-save-sparse", "store-to-store-expanded", "index-save-hardlink", "store-to-store-index"]
 
 
 def run_shard(ctx):
     per = 2 if ctx.tier == "quick" else 8
-    every = 10 if ctx.tier == "quick" else 1
+    every = 14 if ctx.tier == "quick" else 1
     k = 0
     for t in range(per):
-        for sc in SCENARIOS:
+        for sc in SCENARIOS if (ctx.tier != "quick" or t == 0) else SCENARIOS[:7]:
             case = k
             k += 1
             if ctx.replay_case is not None and ctx.replay_case != case:
